@@ -557,3 +557,30 @@ def restart_play_set():
             out.append(("markers-o%d-%s.s3m" % (oi, "none" if tgt is None else "b%02x" % tgt),
                         tiny_s3m(orders, fx_last=None if tgt is None else (2, tgt))))
     return out
+
+
+# --------------------------------------------------------------------------
+# IFF-family files: a genuine file, then thousands of repeated zero / small-size chunks of an id the file itself uses
+# (= an id its loader registers), appended at the end or inserted right behind the first chunk.  Loaded unmodified
+# under the heap and read-work meters of harness/c02_play.c.
+# --------------------------------------------------------------------------
+
+def iff_repeat_variants(data, repeats=8192, max_ids=12):
+    """[(tag, bytes)] for one chunked file (tools' CHUNKED table); empty when the layout is not recognised"""
+    bounds, idlen, end = chunk_boundaries(data)
+    if len(bounds) < 1:
+        return []
+    ids = []
+    for pos in bounds:
+        cid = data[pos:pos + idlen]
+        if cid not in ids:
+            ids.append(cid)
+    first_end = bounds[1] if len(bounds) > 1 else len(data)
+    out = []
+    for cid in ids[:max_ids]:
+        safe = "".join(chr(c) if 48 <= c < 123 and chr(c).isalnum() else "_" for c in cid)
+        for size in (0, 4):
+            rep = (cid + struct.pack(end + "I", size) + bytes(size)) * (repeats if size == 0 else repeats // 2)
+            out.append(("%s-z%d-tail" % (safe, size), data + rep))
+            out.append(("%s-z%d-head" % (safe, size), data[:first_end] + rep + data[first_end:]))
+    return out
